@@ -31,7 +31,9 @@ Skip == /\ Ev.ev # "load" /\ dead /\ UNCHANGED <<pvars, dead, bad>>
 
 \* C01: a second object built from the same ordered weight list (other names and
 \* addresses) is stepped side by side; its reply is logged as b2
+\* b3: an object freshly built at the last load point from the balancer's ordered weight list
 Obligations == IF "b2" \in DOMAIN Ev /\ Ev.b2 # Ev.b THEN "Deterministic"
+               ELSE IF "b3" \in DOMAIN Ev /\ fresh' /\ Ev.algo = "smooth" /\ Ev.b3 # Ev.b THEN "FreshDeterministic"
                ELSE IF ~ReplyOK' THEN "ReplyOK"
                ELSE IF ~Window' THEN "Window"
                ELSE IF ~Periodic' THEN "Periodic" ELSE "ok"
@@ -47,7 +49,7 @@ TPick == /\ Ev.ev = "pick" /\ ~dead
 
 TFlip == /\ Ev.ev = "flip" /\ ~dead /\ PFlip(Ev.b) /\ UNCHANGED <<dead, bad>>
 TConn == /\ Ev.ev = "conn" /\ ~dead /\ PConn(Ev.b, Ev.d) /\ UNCHANGED <<dead, bad>>
-TUpdate == /\ Ev.ev = "update" /\ ~dead /\ PUpdate(Ev.w) /\ UNCHANGED <<dead, bad>>
+TUpdate == /\ Ev.ev = "update" /\ ~dead /\ PUpdate(Ev.w, Ev.av, Ev.cn) /\ UNCHANGED <<dead, bad>>
 
 TNext == /\ l <= Len(Trace) /\ l' = l + 1
          /\ (TLoad \/ Skip \/ TPick \/ TFlip \/ TConn \/ TUpdate)
